@@ -77,7 +77,9 @@ class ARRecorder:
         self.controlled = controlled
         self.weight_probs = weight_probs
         self.events = []
-        self.batch_ws = []  # weights of every batch, in call order
+        self.batch_ws = []  # amplitudes of every batch, in call order
+        self.batch_ims = []  # importance values [num, den] of every batch
+        self.importance = False
         self._last_u = None
         self._in_single = 0
         self.nbatch = 0
@@ -88,31 +90,52 @@ class ARRecorder:
         ws = self.rng.choice(vals, size=n, p=self.weight_probs)
         return [int(w) for w in ws]
 
+    IMPS = [[1, 2], [1, 1], [2, 1]]
+
+    def _importances(self, ws):
+        """importance values below and above 1, anti-correlated with the amplitude (large amplitude -> small
+        importance more often), so that the largest effective weight amp / importance is not at the largest amplitude"""
+        if not self.importance:
+            return [[1, 1] for _ in ws]
+        half = (self.max_w + 1) / 2.0
+        out = []
+        for w in ws:
+            p = [0.5, 0.3, 0.2] if w >= half else [0.2, 0.3, 0.5]
+            out.append(self.IMPS[int(self.rng.choice(3, p=p))])
+        return out
+
     def _draw_u(self, n):
         ks = self.rng.choice(self.unums, size=n)
         self._last_u = [[int(k), UDEN] for k in ks]
         return np.asarray(ks, dtype="float64") / UDEN
 
     # ---- multi_sampling -------------------------------------------------
-    def multi(self, N, max_N, bound0=None, bound_kind="tensor", force=True):
+    def multi(self, N, max_N, bound0=None, bound_kind="tensor", force=True, importance=False):
         import tensorflow as tf
         import tf_pwa.data as D
         import tf_pwa.generator.generator as G
 
         rec = self
+        rec.importance = bool(importance)
 
         def phsp(n):
             rec.nbatch += 1
             ws = rec._weights(n)
+            ims = rec._importances(ws)
             rec.batch_ws.append(ws)
+            rec.batch_ims.append(ims)
             return {
                 "k": tf.constant([rec.nbatch] * n, dtype="int64"),
                 "i": tf.constant(list(range(1, n + 1)), dtype="int64"),
                 "w": tf.constant(ws, dtype="float64"),
+                "g": tf.constant([a / b for a, b in ims], dtype="float64"),
             }
 
         def amp(data):
             return data["w"]
+
+        def imp_f(data):
+            return data["g"]
 
         orig_single, orig_mask, orig_uniform = G.single_sampling2, D.data_mask, tf.random.uniform
 
@@ -129,11 +152,14 @@ class ARRecorder:
             else:  # decision witnesses: 0 accepts any positive weight, 1 rejects any weight <= bound
                 a = set(acc)
                 us = [[0, 1] if (j + 1) in a else [1, 1] for j in range(len(ws))]
+                # (a rejected event whose effective weight exceeds the bound makes the witness 1 inconsistent:
+                #  the trace is then rejected, as it must be)
             rec.events.append(
                 {
                     "a": "Batch",
                     "req": int(n),
-                    "ws": ws,
+                    "as": ws,
+                    "ims": rec.batch_ims[-1],
                     "us": us,
                     "acc": acc,
                     "hasBin": max_weight is not None,
@@ -171,7 +197,7 @@ class ARRecorder:
         if self.controlled:
             tf.random.uniform = uniform
         try:
-            ret, status = G.multi_sampling(phsp, amp, N, max_N=max_N, force=force, max_weight=b_arg, display=False)
+            ret, status = G.multi_sampling(phsp, amp, N, max_N=max_N, force=force, max_weight=b_arg, importance_f=imp_f if importance else None, display=False)
         finally:
             G.single_sampling2, D.data_mask = orig_single, orig_mask
             tf.random.uniform = orig_uniform
@@ -199,6 +225,7 @@ class ARRecorder:
             "b0": [int(bound0), 1] if bound0 is not None else [0, 1],
             "ev": out,
             "exact": bool(self.controlled),
+            "importance": bool(importance),
         }, ids
 
     # ---- interp_sample_f ------------------------------------------------
@@ -213,6 +240,7 @@ class ARRecorder:
                 rec.nbatch += 1
                 ws = rec._weights(n)
                 rec.batch_ws.append(ws)
+                rec.batch_ims.append([[1, 1] for _ in ws])
                 return np.asarray([rec.nbatch * 1000000 + j for j in range(1, n + 1)], dtype="float64")
 
             def __call__(self, x):
@@ -235,7 +263,8 @@ class ARRecorder:
                 {
                     "a": "Batch",
                     "req": int(n),
-                    "ws": ws,
+                    "as": ws,
+                    "ims": rec.batch_ims[-1],
                     "us": rec._last_u,
                     "acc": acc,
                     "hasBin": max_rnd is not None,
@@ -340,7 +369,7 @@ def drift_of(trace, variant):
     has, bound = trace["hasB"], F(*trace["b0"]) if trace["hasB"] else None
     for e in trace["ev"]:
         if e["a"] == "Batch":
-            wmax = F(max(e["ws"]))
+            wmax = max(F(a) / F(*g) for a, g in zip(e["as"], e["ims"]))
             if variant == "multi":
                 local = wmax * F(101, 100) if (not has or bound < wmax) else bound
                 stored = local * F(11, 10) if not has else bound
@@ -371,7 +400,7 @@ def phsp_trace(N, node_logs):
 def write_cfg(path, variant):
     with open(path, "w") as f:
         f.write(
-            'CONSTANTS\n Variant = "%s"\n NSet = {1}\n MaxW = 1\n MaxLen = 1\n MaxBatches = 1000000\n UNums = {0}\n UDen = %d\n'
+            'CONSTANTS\n Variant = "%s"\n NSet = {1}\n MaxW = 1\n ImpNums = {1}\n ImpDen = 1\n MaxLen = 1\n MaxBatches = 1000000\n UNums = {0}\n UDen = %d\n'
             " UserBounds = {}\n PhNSet = {1}\n PhCap = %d\n PhMaxRefill = 1\n PhMaxNodes = 1\n"
             "INIT TraceInit\nNEXT TraceNext\n"
             "INVARIANT ArTypeOK\nINVARIANT BoundGeWeight\nINVARIANT Proportional\nINVARIANT ThinIsProbability\n"
